@@ -1146,6 +1146,12 @@ impl Server {
                     return Ok(RespFrame::ok());
                 }
                 
+                // MULTI, EXEC, DISCARD and UNWATCH take no argument: with surplus arguments they are refused and
+                // change nothing (`EXEC junk` must not execute, `UNWATCH junk` must not drop the watches)
+                if matches!(command.as_str(), "MULTI" | "EXEC" | "DISCARD" | "UNWATCH") && parts.len() != 1 {
+                    return Ok(RespFrame::error(format!("ERR wrong number of arguments for '{}' command", command.to_lowercase())));
+                }
+                
                 // Handle transaction control commands and connection-specific commands
                 match command.as_str() {
                     "MULTI" => {
